@@ -2,7 +2,6 @@ package validator
 
 import (
 	"bytes"
-	"reflect"
 	"strings"
 
 	jbytes "github.com/jsightapi/jsight-schema-go-library/bytes"
@@ -154,58 +153,53 @@ func (v objectValidator) validateTypeRules(objectNode *schema.ObjectNode, value 
 		if !ok {
 			continue
 		}
-		node := typ.Schema().RootNode()
-		if node.Type().String() != "string" {
-			panic(errors.Format(errors.ErrInvalidKeyType, v.requiredKeysString()))
-		}
-
-		flag := false
-		inside := false
-		i := 0
-
-		node.ConstraintMap().EachSafe(func(_ constraint.Type, v constraint.Constraint) {
-			inside = true
-			if i == 0 {
-				flag = true
-			}
-			flag = flag && checkConstraint(v, value)
-			i++
-		})
-
-		if !inside {
-			if bytes.Equal(node.Value(), value) {
-				flag = true
-			}
-		}
-		if flag {
-			// all rules ok for a node
+		if v.keyMatchesNode(typ.Schema().RootNode(), value, map[schema.Node]struct{}{}) {
 			return key, true
 		}
 	}
 	return "", false
 }
 
-func checkConstraint(constr constraint.Constraint, value jbytes.Bytes) (b bool) {
+// keyMatchesNode reports whether the key (a JSON string literal) is a value of
+// the string type whose root is the node. The type may be an alias or a union
+// of string types (the checker accepts those), and may carry any rule of a
+// string. The path holds the nodes being resolved right now.
+func (v objectValidator) keyMatchesNode(node schema.Node, value jbytes.Bytes, path map[schema.Node]struct{}) bool {
+	if _, ok := path[node]; ok {
+		return false
+	}
+	path[node] = struct{}{}
+	defer delete(path, node)
+
+	// @a | @b, {type: "@a"}, {or: [...]}: the key has to match one of the types.
+	if c := node.Constraint(constraint.TypesListConstraintType); c != nil {
+		for _, name := range c.(*constraint.TypesList).Names() {
+			typ, ok := v.rootSchema.TypesList()[name]
+			if ok && v.keyMatchesNode(typ.Schema().RootNode(), value, path) {
+				return true
+			}
+		}
+		return false
+	}
+
+	if node.Type().String() != "string" {
+		panic(errors.Format(errors.ErrInvalidKeyType, v.requiredKeysString()))
+	}
+
+	if node.ConstraintMap().Len() == 0 {
+		// A string without rules: only the example itself.
+		return bytes.Equal(node.Value(), value)
+	}
+	return keyObeysRules(node, value)
+}
+
+// keyObeysRules validates the key as a value of the node.
+func keyObeysRules(node schema.Node, value jbytes.Bytes) (ok bool) {
 	defer func() {
 		if r := recover(); r != nil {
-			b = false
+			ok = false
 		}
 	}()
-
-	switch ct := constr.(type) {
-	case *constraint.MinLength:
-		ct.Validate(value)
-		return true
-	case *constraint.MaxLength:
-		ct.Validate(value)
-		return true
-	case *constraint.Regex:
-		ct.Validate(value)
-		return true
-	case *constraint.Enum:
-		ct.Validate(value)
-		return true
-	default:
-		panic(errors.Format(errors.ErrUnknownRule, reflect.TypeOf(constr)))
-	}
+	ValidateLiteralValue(node, value)
+	return true
 }
